@@ -172,3 +172,24 @@ Theorem C02_mapor_nk_merge_idem (H : list (oprec (mop oop))) :
   mohist_ok_nk H -> forall (s : cmap orswot) (K : gset nat), moreach_nk H s K -> mmerge orswot_valops s s = s.
 Proof. exact (mapor_merge_idem_nk H). Qed.
 Print Assumptions C02_mapor_nk_merge_idem.
+
+(** Map<K1, Map<K2, Orswot>> when no key is ever removed: merge is commutative, associative and idempotent (Leibniz, complete states)
+    on all states reachable through per-actor delivery, duplicates and merges (proofs/MapMapOrswotNK.v) *)
+From Crdt Require Import model.Orswot model.Map spec.System spec.OrswotSpec spec.OrswotSystem spec.MapSpec spec.MapSystem spec.MapOrswotSpec spec.MapMapOrswotSpec spec.MapMapOrswotNKSpec proofs.MapMapOrswotNK.
+Theorem C02_map2_nk_merge_comm (H : list (oprec (mop (mop oop)))) :
+  m2hist_ok_nk H -> forall (s1 : cmap (cmap orswot)) (K1 : gset nat) (s2 : cmap (cmap orswot)) (K2 : gset nat),
+  m2reach_nk H s1 K1 -> m2reach_nk H s2 K2 -> mmerge vo2 s1 s2 = mmerge vo2 s2 s1.
+Proof. exact (map2_merge_comm_nk H). Qed.
+Print Assumptions C02_map2_nk_merge_comm.
+
+Theorem C02_map2_nk_merge_assoc (H : list (oprec (mop (mop oop)))) :
+  m2hist_ok_nk H -> forall (s1 : cmap (cmap orswot)) (K1 : gset nat) (s2 : cmap (cmap orswot)) (K2 : gset nat) (s3 : cmap (cmap orswot)) (K3 : gset nat),
+  m2reach_nk H s1 K1 -> m2reach_nk H s2 K2 -> m2reach_nk H s3 K3 ->
+  mmerge vo2 (mmerge vo2 s1 s2) s3 = mmerge vo2 s1 (mmerge vo2 s2 s3).
+Proof. exact (map2_merge_assoc_nk H). Qed.
+Print Assumptions C02_map2_nk_merge_assoc.
+
+Theorem C02_map2_nk_merge_idem (H : list (oprec (mop (mop oop)))) :
+  m2hist_ok_nk H -> forall (s : cmap (cmap orswot)) (K : gset nat), m2reach_nk H s K -> mmerge vo2 s s = s.
+Proof. exact (map2_merge_idem_nk H). Qed.
+Print Assumptions C02_map2_nk_merge_idem.
